@@ -53,6 +53,9 @@ type Script struct {
 	Start    string   `json:"start"`
 	Stop     int      `json:"stop"` // consumer declines after this many items (-1: never)
 	Twice    bool     `json:"twice,omitempty"`
+	// CancelAfter > 0: the consumer cancels the listing's context when it has received this many
+	// items and goes on accepting items
+	CancelAfter int `json:"cancel_after,omitempty"`
 }
 
 const pfx = "px9"
@@ -231,6 +234,8 @@ func strip(name string) string {
 
 func run(s Script, v *vt.V) {
 	ctx := context.Background()
+	bg := ctx
+	cancelListing := func() {}
 	log := &monitorLog{}
 	m0 := ocimem.New()
 	if err := populate(ctx, m0, s, s.Items, true, hasSub(s)); err != nil {
@@ -382,6 +387,10 @@ func run(s Script, v *vt.V) {
 	// the iterator value is obtained once; a second pass re-iterates the same value
 	var seqS ociregistry.Seq[string]
 	var seqD ociregistry.Seq[ociregistry.Descriptor]
+	if s.CancelAfter > 0 {
+		ctx, cancelListing = context.WithCancel(bg)
+		defer cancelListing()
+	}
 	switch s.Kind {
 	case "repos":
 		seqS = top.Repositories(ctx, s.Start)
@@ -404,6 +413,9 @@ func run(s Script, v *vt.V) {
 			}
 			seen[x] = true
 			got = append(got, x)
+			if s.CancelAfter > 0 && len(got) == s.CancelAfter {
+				cancelListing()
+			}
 			return stop < 0 || len(got) < stop
 		}
 		if stop == 0 {
@@ -467,6 +479,17 @@ func run(s Script, v *vt.V) {
 			}
 		}
 		healthy := !faultBelow && !tooLarge && !(repoDenied && s.Kind != "repos")
+		if s.CancelAfter > 0 && s.CancelAfter <= len(got) && healthy {
+			// the context was cancelled under the iteration: it may run to completion all the same or end
+			// with an error, but not look complete when it is not
+			if len(errs) == 0 && (stop < 0 || stop > len(got)) && fmt.Sprint(got) != fmt.Sprint(wantNames) {
+				v.Failf("silently-shortened", "%s: the listing's context was cancelled after %d items and the iteration ended without an error after %q; the complete list is %q", desc, s.CancelAfter, got, wantNames)
+				return false
+			}
+			if len(errs) == 1 || len(got) < len(wantNames) {
+				return true
+			}
+		}
 		if len(errs) == 1 {
 			if healthy {
 				emptyRepo := s.Kind != "repos" && len(want) == 0 && errors.Is(errs[0], ociregistry.ErrNameUnknown)
@@ -508,7 +531,10 @@ func run(s Script, v *vt.V) {
 	if !check("first pass", s.Stop) {
 		return
 	}
-	if s.Twice && !faultBelow && !tooLarge {
+	if s.CancelAfter > 0 {
+		v.Class("cancelled-midway")
+	}
+	if s.Twice && !faultBelow && !tooLarge && s.CancelAfter == 0 {
 		v.Class("iterated-twice")
 		if !check("second pass", -1) {
 			return
@@ -673,13 +699,16 @@ func genScript(t *rapid.T) Script {
 	}
 	s.Stop = rapid.SampledFrom([]int{-1, -1, -1, 0, 1, 2, 3, len(all), len(all) + 1}).Draw(t, "stop")
 	s.Twice = rapid.IntRange(0, 3).Draw(t, "twice") == 0
+	if rapid.IntRange(0, 5).Draw(t, "cancel") == 0 {
+		s.CancelAfter = rapid.IntRange(1, max(len(all), 1)).Draw(t, "cancelAfter")
+	}
 	return s
 }
 
 var prop = &vt.Prop[Script]{
 	ID:   "C05",
 	Name: "Listings",
-	Rule: "repositories / tags / referrers listings over generated contents (sizes {0,1,p-1,p,p+1,2p-1,2p,2p+1,3p+1} for client page size p in {1,2,3,5,default}), through stacks of <= 4 layers drawn from {http (<= 2 hops; MaxListPageSize absent / equal / above / below the client's page; Link on/off), debug, select(deny set), sub(prefix, with siblings px9, px9ey/x, px9-tools, px9.d/x outside it), unify(second member equal / overlapping / disjoint / repository unknown; both policies), fault(error after j items)}; start-after in {absent, an element, between elements, before all, after all, URL metacharacters & = ? % + space # and non-ASCII}; consumer stops after k items for k in {never,0,1,2,3,n,n+1}; optional second iteration of the same Seq; monitors between all layers check that no consumer is invoked after declining or after an error; oracle = independently computed sorted, de-duplicated, filtered, strictly-after list; a healthy stack must deliver exactly it, a stack with a failing layer must end with an error; non-trivial = at least one page boundary or a non-empty start point; distinct = (kind, stack shape, expected length, page size, start, stop class)",
+	Rule: "(a sixth of the consumers cancel the listing's context after k items and go on accepting: the iteration then ends with an error or delivers the complete list) repositories / tags / referrers listings over generated contents (sizes {0,1,p-1,p,p+1,2p-1,2p,2p+1,3p+1} for client page size p in {1,2,3,5,default}), through stacks of <= 4 layers drawn from {http (<= 2 hops; MaxListPageSize absent / equal / above / below the client's page; Link on/off), debug, select(deny set), sub(prefix, with siblings px9, px9ey/x, px9-tools, px9.d/x outside it), unify(second member equal / overlapping / disjoint / repository unknown; both policies), fault(error after j items)}; start-after in {absent, an element, between elements, before all, after all, URL metacharacters & = ? % + space # and non-ASCII}; consumer stops after k items for k in {never,0,1,2,3,n,n+1}; optional second iteration of the same Seq; monitors between all layers check that no consumer is invoked after declining or after an error; oracle = independently computed sorted, de-duplicated, filtered, strictly-after list; a healthy stack must deliver exactly it, a stack with a failing layer must end with an error; non-trivial = at least one page boundary or a non-empty start point; distinct = (kind, stack shape, expected length, page size, start, stop class)",
 	Gen:  genScript,
 	Run:  run,
 }
